@@ -6,6 +6,7 @@ every final state all complete value assignments are swept and the layout
 invariants evaluated.  Four sub-explorations keep one dimension wide each:
 layout (hierarchies x lengths x bit-field lengths), explicit positions, tags,
 and operation orders."""
+import collections
 import itertools
 
 PROPERTY = "C08"
@@ -530,6 +531,7 @@ def shards(tier):
     for k in range(4):
         out.append(dict(fam="orders", k=k, K=4))
     out.append(dict(fam="big"))
+    out.append(dict(fam="extra"))
     return out
 
 
@@ -742,6 +744,145 @@ def fam_big(params, tier, acc):
     acc.sample(dict(fam="big"))
 
 
+def fam_extra(params, tier, acc):
+    """Direct scenarios around state that outlives a call: masks asked for
+    before and after the field tree grows, calls that are rejected half-way,
+    scopes keyed on values that are not small integers."""
+    from rig.bitfield import BitField
+
+    def fresh_int(v):
+        # an int object that is equal but never identical to a literal
+        return int(str(v))
+
+    def bad(kind, msg, **case):
+        acc.violation(dict(kind=kind), dict(extra=True, scenario=kind, **case),
+                      msg)
+
+    def bits(bf_inst, name):
+        return bf_inst.get_mask(field=name)
+    # (a) masks of a long-lived instance follow the field tree
+    for grow in ("child", "top", "tagged_child"):
+        for ask_tag in (None, "t"):
+            acc.evaluations += 1
+            acc.nontrivial += 1
+            try:
+                bf = BitField(12)
+                bf.add_field("p", length=1, tags="t")
+                bf.add_field("x", length=2)
+                inst = bf(p=0)
+                bf.assign_fields()
+                m0 = inst.get_mask(tag=ask_tag)
+                r0 = bf.get_mask(tag=ask_tag)
+                if grow == "child":
+                    bf(p=fresh_int(0)).add_field("c", length=2, tags="t")
+                elif grow == "tagged_child":
+                    inst.add_field("c", length=3, tags="t u")
+                else:
+                    bf.add_field("c", length=2, tags="t")
+                bf.assign_fields()
+                m1 = inst.get_mask(tag=ask_tag)
+                want = bf(p=0).get_mask(tag=ask_tag)
+                cbits = bf(p=0).get_mask(field="c")
+                if m1 != want or (m1 & cbits) != cbits:
+                    bad("stale_mask", "instance bf(p=0) reports mask %#x "
+                        "(tag %r) after field c was added (%s) and laid out; "
+                        "a new instance with the same values reports %#x, c "
+                        "occupies %#x; before the addition the mask was %#x"
+                        % (m1, ask_tag, grow, want, cbits, m0), grow=grow,
+                        tag=ask_tag)
+                r1 = bf.get_mask(tag=ask_tag)
+                if grow == "top" and r1 != BitField.get_mask(
+                        bf(), tag=ask_tag):
+                    bad("stale_mask", "root instance mask %#x differs from "
+                        "a new root instance's" % r1, grow=grow, tag=ask_tag)
+            except Exception as e:
+                bad("extra_exception", "mask scenario %s/%r raised %s: %s"
+                    % (grow, ask_tag, type(e).__name__, e), grow=grow,
+                    tag=ask_tag)
+    # (b) a rejected call leaves nothing behind
+    for big in (3, 7, 255):
+        for lb in (1, 2):
+            for third in (False, True):
+                for how in ("too_large", "unknown_field", "negative"):
+                    acc.evaluations += 1
+                    acc.nontrivial += 1
+                    L = 1 + lb + (2 if third else 0)
+                    try:
+                        bf = BitField(L)
+                        bf.add_field("a")
+                        bf.add_field("b", length=lb)
+                        if third:
+                            bf.add_field("c")
+                        kw = collections.OrderedDict()
+                        kw["a"] = big
+                        if third:
+                            kw["c"] = 200
+                        if how == "too_large":
+                            kw["b"] = 1 << lb
+                        elif how == "negative":
+                            kw["b"] = -1
+                        else:
+                            kw["zz"] = 1
+                        try:
+                            bf(**kw)
+                            bad("bad_call_accepted", "bf(%r) was accepted"
+                                % (dict(kw),), big=big, lb=lb, how=how)
+                            continue
+                        except Exception:
+                            pass
+                        bf(a=1)
+                        if third:
+                            bf(c=3)
+                        bf.assign_fields()
+                        wa = bin(bf.get_mask(field="a")).count("1")
+                        if wa != 1 or (third and bin(bf.get_mask(
+                                field="c")).count("1") != 2):
+                            bad("rejected_call_left_state", "field widths "
+                                "after a rejected call: a has %d bits" % wa,
+                                big=big, lb=lb, how=how)
+                    except Exception as e:
+                        bad("rejected_call_left_state",
+                            "after the rejected call bf(%r) the fields (a: "
+                            "largest accepted value 1%s; b: %d bits) no "
+                            "longer fit %d bits: %s: %s"
+                            % (dict(kw), "; c: largest accepted value 3"
+                               if third else "", lb, L, type(e).__name__, e),
+                            big=big, lb=lb, how=how, third=third)
+    # (c) scopes keyed on values that are not small cached integers
+    for v in (0, 1, 2, 255, 256, 257, 300, 1000, 65534):
+        acc.evaluations += 1
+        acc.nontrivial += 1
+        try:
+            bf = BitField(24)
+            bf.add_field("p", length=16)
+            bf(p=v).add_field("c", length=2)
+            bf(p=fresh_int(v + 1)).add_field("d", length=3)
+            bf(p=fresh_int(v)).add_field("e", length=1)
+            bf.assign_fields()
+            inst = bf(p=fresh_int(v))
+            want = (bf.get_mask(field="p") | inst.get_mask(field="c") |
+                    inst.get_mask(field="e"))
+            if inst.get_mask() != want or bin(want).count("1") != 19:
+                bad("scope_value_identity", "bf(p=%d).get_mask() = %#x, the "
+                    "fields present (p, c, e) occupy %#x"
+                    % (v, inst.get_mask(), want), value=v)
+            k = bf(p=fresh_int(v), c=3, e=1)
+            if k.get_value() & inst.get_mask(field="c") != \
+                    inst.get_mask(field="c") or k.c != 3 or k.e != 1:
+                bad("scope_value_identity", "bf(p=%d, c=3, e=1) reads back "
+                    "c=%r e=%r" % (v, k.c, k.e), value=v)
+            try:
+                bf(p=fresh_int(v), d=1)
+                bad("scope_value_identity", "field d (scope p=%d) accepted "
+                    "when p=%d" % (v + 1, v), value=v)
+            except Exception:
+                pass
+        except Exception as e:
+            bad("scope_value_identity", "scope keyed on p=%d: %s: %s"
+                % (v, type(e).__name__, e), value=v)
+    acc.sample(dict(fam="extra"))
+
+
 def run_shard(params, tier, acc):
     acc.states_seen = set()
     globals()["fam_" + params["fam"]](params, tier, acc)
@@ -753,6 +894,10 @@ def run_shard(params, tier, acc):
 
 def replay(case, acc):
     acc.states_seen = set()
+    if case.get("extra"):
+        fam_extra({}, "quick", acc)
+        del acc.states_seen
+        return
     prog = dict(case)
     if prog.get("ops"):
         prog["ops"] = [tuple(o) for o in prog["ops"]]
